@@ -530,7 +530,115 @@ theorem agfc_example_no_run_beats_bound (f : E → ℝ) (g : E → E) (t : Coef)
   rw [e] at hc
   nlinarith
 
+/-! ## Polyak step, distance to the optimum (adaptive_methods.polyak_steps_in_distance_to_optimum) -/
+
+theorem polyak_init_den (v : Nat → E) (φ : Nat → ℝ) : EDict.den v φ polyakInit = ‖v 1 - v 0‖ ^ 2 - 1 := by
+  unfold polyakInit EDict.subConst PDict.sq
+  rw [EDict.den_addConst, den_ip, PDict.den_sub v _ _ (nodup_single 0 1), real_inner_self_eq_norm_sq, denP_single, denP_single]
+  push_cast; ring
+
+theorem polyak_step_den (v : Nat → E) (φ : Nat → ℝ) (γ : Coef) :
+    EDict.den v φ (polyakStep γ) = ((γ : ℚ) : ℝ) * ‖v 2‖ ^ 2 - 2 * (φ 1 - φ 0) := by
+  unfold polyakStep PDict.sq
+  rw [EDict.den_sub v φ _ _ (EDict.wf_smul _ _ (EDict.wf_sub _ _ (nodup_singleE _ _))), EDict.den_smul, EDict.den_smul,
+    EDict.den_sub v φ _ _ (nodup_singleE _ _), den_ip, real_inner_self_eq_norm_sq, denE_single, denE_single, denP_single]
+  push_cast; ring
+
+theorem polyak_metric_den (v : Nat → E) (φ : Nat → ℝ) (γ : Coef) :
+    EDict.den v φ (polyakMetric γ) = ‖(v 1 - ((γ : ℚ) : ℝ) • v 2) - v 0‖ ^ 2 := by
+  unfold polyakMetric PDict.sq gdlNext
+  rw [den_ip, PDict.den_sub v _ _ (nodup_single 0 1), den_stepPt, real_inner_self_eq_norm_sq, denP_single, denP_single]
+
+/-- **the tight rate of one Polyak step is valid for the script's own model**: `f` `μ`-strongly convex and `L`-smooth
+(`0 < μ < L`) with gradient `g`, `g(x⋆) = 0`, `1/L ≤ γ ≤ 1/μ`; under every interpretation consistent with `f` that satisfies the
+script's two constraints (`‖x0 − x⋆‖² ≤ 1`, and the Polyak rule `γ ‖∇f(x0)‖² = 2 (f(x0) − f⋆)`), the script's metric `‖x1 − x⋆‖²`
+is at most `(γL − 1)(1 − γμ) / (γ(L + μ) − 1)`, the closed form the example returns.  The proof is the dual certificate in closed
+form: multipliers `τ` on the initial condition, `γ(2 − γ(L+μ))/d` on the Polyak rule, `2γ(γL − 1)/d` and `2γ(1 − γμ)/d` on the two
+interpolation inequalities between `x⋆` and `x0` (`d = γ(L + μ) − 1`), residual zero -/
+theorem polyakd_example_no_run_beats_bound (f : E → ℝ) (g : E → E) (μ L : ℝ) (γ : Coef) (hμ : 0 < μ) (hμL : μ < L)
+    (hγ1 : 1 / L ≤ ((γ : ℚ) : ℝ)) (hγ2 : ((γ : ℚ) : ℝ) ≤ 1 / μ)
+    (hconv : ∀ x y, f y ≥ f x + ⟪g x, y - x⟫ + μ / 2 * ‖y - x‖ ^ 2)
+    (hsm : ∀ x y, f y ≤ f x + ⟪g x, y - x⟫ + L / 2 * ‖y - x‖ ^ 2)
+    (v : Nat → E) (φ : Nat → ℝ) (hstar : g (v 0) = 0) (hg : v 2 = g (v 1)) (h0 : φ 0 = f (v 0)) (h1 : φ 1 = f (v 1))
+    (hinit : EDict.den v φ polyakInit ≤ 0) (hstep : EDict.den v φ (polyakStep γ) = 0) :
+    EDict.den v φ (polyakMetric γ) ≤
+      (((γ : ℚ) : ℝ) * L - 1) * (1 - ((γ : ℚ) : ℝ) * μ) / (((γ : ℚ) : ℝ) * (L + μ) - 1) := by
+  rw [polyak_init_den] at hinit
+  rw [polyak_step_den, h0, h1] at hstep
+  rw [polyak_metric_den]
+  set γr := ((γ : ℚ) : ℝ) with hγr
+  set x := v 1; set gx := v 2; set xs := v 0
+  have hL : 0 < L := lt_trans hμ hμL
+  have hLμ : 0 < L - μ := by linarith
+  -- the two interpolation inequalities between `x⋆` and `x0`
+  have S01 := ssc_interp f g μ L hμ.le hμL hconv hsm xs x
+  have S10 := ssc_interp f g μ L hμ.le hμL hconv hsm x xs
+  rw [hstar, ← hg] at S01 S10
+  -- atoms
+  set aa := ‖x - xs‖ ^ 2 with haa
+  set ag := ⟪gx, x - xs⟫ with hag
+  set gg := ‖gx‖ ^ 2 with hgg
+  have e01 : ⟪gx, xs - x⟫ = -ag := by rw [hag, ← neg_sub x xs, inner_neg_right]
+  have n0 : ‖(0 : E) - gx‖ ^ 2 = gg := by rw [zero_sub, norm_neg]
+  have n1 : ‖gx - 0‖ ^ 2 = gg := by rw [sub_zero]
+  have q01 : ‖xs - x - (1 / L) • ((0 : E) - gx)‖ ^ 2 = aa - 2 / L * ag + 1 / L ^ 2 * gg := by
+    have : xs - x - (1 / L) • ((0 : E) - gx) = -((x - xs) - (1 / L) • gx) := by rw [zero_sub, smul_neg]; abel
+    rw [this, norm_neg, @norm_sub_sq_real, real_inner_smul_right, norm_smul, mul_pow, Real.norm_eq_abs, sq_abs, real_inner_comm]
+    ring
+  have q10 : ‖x - xs - (1 / L) • (gx - 0)‖ ^ 2 = aa - 2 / L * ag + 1 / L ^ 2 * gg := by
+    rw [sub_zero, @norm_sub_sq_real, real_inner_smul_right, norm_smul, mul_pow, Real.norm_eq_abs, sq_abs, real_inner_comm]
+    ring
+  rw [e01, n0, q01] at S01
+  rw [inner_zero_left, n1, q10] at S10
+  have hdist : ‖(x - γr • gx) - xs‖ ^ 2 = aa - 2 * γr * ag + γr ^ 2 * gg := by
+    have e2 : (x - γr • gx) - xs = (x - xs) - γr • gx := by abel
+    rw [e2, @norm_sub_sq_real, real_inner_smul_right, norm_smul, mul_pow, Real.norm_eq_abs, sq_abs, real_inner_comm]
+    ring
+  rw [hdist]
+  set D := f x - f xs with hD
+  -- signs
+  have hγpos : 0 < γr := lt_of_lt_of_le (by positivity) hγ1
+  have hγL : 1 ≤ γr * L := by
+    have := mul_le_mul_of_nonneg_right hγ1 hL.le
+    rwa [one_div, inv_mul_cancel₀ hL.ne'] at this
+  have hγμ : γr * μ ≤ 1 := by
+    have := mul_le_mul_of_nonneg_right hγ2 hμ.le
+    rwa [one_div, inv_mul_cancel₀ hμ.ne'] at this
+  have hd : 0 < γr * (L + μ) - 1 := by nlinarith
+  have hone : (1 - μ / L) ≠ 0 := by
+    have : μ / L < 1 := (div_lt_one hL).mpr hμL
+    linarith
+  -- the certificate
+  have hS01 : 0 ≤ -D + ag - (1 / (2 * L) * gg + μ / (2 * (1 - μ / L)) * (aa - 2 / L * ag + 1 / L ^ 2 * gg)) := by
+    rw [hD]; linarith
+  have hS10 : 0 ≤ D - (1 / (2 * L) * gg + μ / (2 * (1 - μ / L)) * (aa - 2 / L * ag + 1 / L ^ 2 * gg)) := by
+    rw [hD]; linarith
+  have hpol : γr * gg - 2 * D = 0 := by rw [hD]; linarith
+  have hτ : 0 ≤ (γr * L - 1) * (1 - γr * μ) / (γr * (L + μ) - 1) :=
+    div_nonneg (mul_nonneg (by linarith) (by linarith)) hd.le
+  have P0 := mul_nonneg hτ (by linarith : (0 : ℝ) ≤ 1 - aa)
+  have P1 := mul_nonneg (div_nonneg (mul_nonneg (mul_nonneg (by norm_num : (0 : ℝ) ≤ 2) hγpos.le) (by linarith : (0 : ℝ) ≤ γr * L - 1)) hd.le) hS01
+  have P2 := mul_nonneg (div_nonneg (mul_nonneg (mul_nonneg (by norm_num : (0 : ℝ) ≤ 2) hγpos.le) (by linarith : (0 : ℝ) ≤ 1 - γr * μ)) hd.le) hS10
+  have key : (γr * L - 1) * (1 - γr * μ) / (γr * (L + μ) - 1) - (aa - 2 * γr * ag + γr ^ 2 * gg)
+      = (γr * L - 1) * (1 - γr * μ) / (γr * (L + μ) - 1) * (1 - aa)
+        + γr * (2 - γr * (L + μ)) / (γr * (L + μ) - 1) * (γr * gg - 2 * D)
+        + 2 * γr * (γr * L - 1) / (γr * (L + μ) - 1)
+            * (-D + ag - (1 / (2 * L) * gg + μ / (2 * (1 - μ / L)) * (aa - 2 / L * ag + 1 / L ^ 2 * gg)))
+        + 2 * γr * (1 - γr * μ) / (γr * (L + μ) - 1)
+            * (D - (1 / (2 * L) * gg + μ / (2 * (1 - μ / L)) * (aa - 2 / L * ag + 1 / L ^ 2 * gg))) := by
+    have hLne : L ≠ 0 := hL.ne'
+    have hdne : γr * (L + μ) - 1 ≠ 0 := hd.ne'
+    have hLμne : L - μ ≠ 0 := hLμ.ne'
+    have h1' : 1 - μ / L = (L - μ) / L := by field_simp
+    rw [h1']
+    field_simp
+    ring
+  rw [hpol, mul_zero, add_zero] at key
+  linarith [P0, P1, P2, key]
+
 end Pepit.C09M
+
+#print axioms Pepit.C09M.polyakd_example_no_run_beats_bound
 
 #print axioms Pepit.C09M.agfc_example_no_run_beats_bound
 
